@@ -4,7 +4,7 @@ from .common import generic_run, FinalDbMonitor, launched_instances
 PID = 'C02'
 ENGINE = 'E1'
 LEVEL = 'exploration'
-RULE = ('One case = generated workflow with execution/submission retry delays (N,M in 0..2) + an outcome plan with failing, submit-failing and vanishing jobs + a seeded schedule (delay/dup/reorder; a third of runs add message loss and poll failures). Distinct = distinct (program, schedule digest); non-trivial = some instance was submitted more than once (a retry actually ran).')
+RULE = ('One case = generated workflow with execution/submission retry delays (N,M in 0..2) + an outcome plan with failing, submit-failing, vanishing jobs and jobs that are accepted by the job runner but lost before they start (found by polling) + a seeded schedule (delay/dup/reorder; a third of runs add message loss and poll failures). Distinct = distinct (program, schedule digest); non-trivial = some instance was submitted more than once (a retry actually ran).')
 ASSUMPTIONS = [
     'jobs, polls, submissions, message transport and the clock are simulated',
     'reference model / invariants cover the generated workflow sub-language',
@@ -46,7 +46,8 @@ def end_check(res, mode):
                 if k[1] == name and k[0] == cycle]
         n_exec_fail = sum(1 for j in jobs if j.submit_ok and j.final in
                           ('failed', 'vanish') or j.killed_at is not None)
-        n_sub_fail = sum(1 for j in jobs if not j.submit_ok)
+        n_sub_fail = sum(1 for j in jobs if not j.submit_ok
+                         or j.final == 'subvanish')
         if 'failed' in outs:
             res.sim.probe('final_failure_after_retries')
             if n_exec_fail < task.exec_retries + 1:
@@ -62,6 +63,6 @@ def end_check(res, mode):
 def run(params):
     return generic_run(PID, params, knobs=KNOBS, policy='any',
                        plan_kw={'p_fail': 0.5, 'p_subfail': 0.5,
-                                'p_vanish': 0.2},
+                                'p_vanish': 0.2, 'p_subvanish': 0.4},
                        monitors=[FinalDbMonitor()], end_check=end_check,
                        probe_key='retry_ran')
